@@ -111,6 +111,7 @@ def install(E, mdir):
                 e.ax(('h2c', Y.get_id()), Y != 0); e.inj(e, 'h2c', Y, e.sterm(cells['secret']))
                 sp = serpt(Y); e.ax(('ser', sp.get_id()), slen(sp) == 33, parsept(sp) == Y, validpt(sp)); e.inj(e, 'serpt', sp, Y)
                 cells['y'] = e.hexenc(StrV(t=sp))
+                e.P.g.setdefault('derived_strs', []).append(cells['y'].t)
             r = Row(p, cells); r.sym = True
             new.append(r)
         for r1, r2 in itertools.combinations(t.rows + new, 2):
@@ -166,18 +167,18 @@ def install(E, mdir):
     HIGHBIT = 'sql: converting argument type: uint64 values with high bit set are not supported'
 
     def parse_insert(q):
-        m = re.match(r'INSERT INTO (\w+) ?\(([^)]*)\) ?VALUES ?\(([^)]*)\)$', q, re.I)
+        m = re.match(r'INSERT( OR IGNORE| OR REPLACE)? INTO (\w+) ?\(([^)]*)\) ?VALUES ?\(([^)]*)\)$', q, re.I)
         if not m: raise Unsupported('sql outside the modelled subset: ' + q)
-        cols = [c.strip() for c in m.group(2).split(',')]
-        vals = [c.strip() for c in m.group(3).split(',')]
+        cols = [c.strip() for c in m.group(3).split(',')]
+        vals = [c.strip() for c in m.group(4).split(',')]
         if any(v != '?' for v in vals) or len(vals) != len(cols): raise Unsupported('sql insert values: ' + q)
-        return m.group(1), cols
+        return m.group(2), cols, (m.group(1) or '').strip().upper()
     def table(db, name, q):
         t = db.tabs.get(name)
         if t is None: raise Unsupported('sql: unknown table %s in %s' % (name, q))
         return t
     def do_insert(e, db, q, args):
-        tn, cols = parse_insert(q)
+        tn, cols, onconf = parse_insert(q)
         t = table(db, tn, q)
         if len(cols) != len(args): return mkerr('sql: expected %d arguments, got %d' % (len(cols), len(args)))
         for c in cols:
@@ -187,12 +188,20 @@ def install(E, mdir):
         for c in t.notnull:
             if newc[c] is None: return mkerr('NOT NULL constraint failed: %s.%s' % (tn, c))
         nr = Row(True, newc)
-        confl = []
-        for r in t.rows:
-            for key in [t.pk] + t.unique:
-                if key and all(newc[k] is not None for k in key):
-                    confl.append(z3.And(pres(r), eqcols(e, r, nr, key)))
-        if confl and e.branch(z3.Or(confl)): return mkerr('UNIQUE constraint failed: ' + tn)
+        def conflicts(r):
+            return [z3.And(pres(r), eqcols(e, r, nr, key)) for key in [t.pk] + t.unique if key and all(newc[k] is not None for k in key)]
+        if onconf == 'OR REPLACE':      # conflicting rows are deleted, then the row is inserted
+            keep = []
+            for r in t.rows:
+                c = conflicts(r)
+                if c and e.branch(z3.Or(c)): continue
+                keep.append(r)
+            t.rows = keep + [nr]
+            return None
+        confl = [c for r in t.rows for c in conflicts(r)]
+        if confl and e.branch(z3.Or(confl)):
+            if onconf == 'OR IGNORE': return None      # silently skipped
+            return mkerr('UNIQUE constraint failed: ' + tn)
         t.rows = t.rows + [nr]
         return None
     def where_cond(e, t, q, args):
